@@ -8,6 +8,24 @@ from core import Record, bits_equal
 
 NAME = "crowd3"
 METRICS = ["cd", "pcd", "ce", "mnn", "2nn"]
+# further ways to name a metric (glue of get_crowding_function): alias, user callable, CrowdingDiversity instance
+LABELS = METRICS + ["pruning-cd", "callable-cd", "instance-cd"]
+BASE = {"pruning-cd": "pcd", "callable-cd": "cd", "instance-cd": "cd"}
+
+
+def user_cd(F, n_remove=None, **kwargs):
+    from pymoode.survival.rank_and_crowding import metrics
+    return metrics.calc_crowding_distance(F)
+
+
+def label_object(label):
+    """what is handed to get_crowding_function / RankAndCrowding(crowding_func=...)"""
+    if label == "callable-cd":
+        return user_cd
+    if label == "instance-cd":
+        from pymoode.survival.rank_and_crowding import metrics
+        return metrics.FunctionalDiversity(metrics.calc_crowding_distance, filter_out_duplicates=False)
+    return label
 
 
 def nds_front(F):
@@ -20,7 +38,7 @@ def nds_front(F):
 
 
 def gen_front(rng, N, M):
-    k = rng.randint(7)
+    k = rng.randint(8)
     if k == 0:                                    # simplex-like continuous front
         F = rng.random_sample((3 * N, M))
         F = F / F.sum(axis=1, keepdims=True)
@@ -41,6 +59,9 @@ def gen_front(rng, N, M):
         for _ in range(max(1, N // 5)):
             F[rng.randint(N)] = F[rng.randint(N)]
         return F
+    elif k == 7:                                  # whole front at a tiny scale (distances below 1e-16)
+        F = rng.random_sample((3 * N, M))
+        F = F / F.sum(axis=1, keepdims=True) * float(rng.choice([1e-17, 1e-20, 1e-30]))
     else:                                         # badly scaled objectives, down to ranges of 1e-12
         F = rng.random_sample((3 * N, M))
         F = F / F.sum(axis=1, keepdims=True) * (10.0 ** rng.choice([-12, -10, -9, -6, -3, 0, 0, 3], size=M))
@@ -52,7 +73,7 @@ def gen_front(rng, N, M):
 
 def gen(rng, n_cases, max_n=40):
     for t in range(n_cases):
-        label = METRICS[t % 5]
+        label = LABELS[t % len(LABELS)]
         M = int(rng.choice([2, 2, 3, 3, 4, 5]))
         N = int(rng.randint(1, max_n + 1))
         F = gen_front(rng, N, M)
@@ -118,6 +139,7 @@ def parse_answer(tk):
 
 
 def _raw_fn(label, compiled):
+    label = BASE.get(label, label)
     if label in ("cd", "ce"):
         from pymoode.survival.rank_and_crowding import metrics
         f = metrics.calc_crowding_distance if label == "cd" else metrics.calc_crowding_entropy
@@ -173,9 +195,9 @@ def run_batch(cases):
                 fb_jobs.append({"kind": "wrapped", "label": c["label"], "n_remove": int(c["n_remove"]), "F": F})
                 fb_idx.append((i, name))
                 continue
-            if compiled and c["label"] == "pcd" and M >= 3:
+            if compiled and BASE.get(c["label"], c["label"]) == "pcd" and M >= 3:
                 if wrapped:
-                    iso_jobs.append({"kind": "wrapped", "label": "pcd", "n_remove": int(c["n_remove"]), "F": F})
+                    iso_jobs.append({"kind": "wrapped", "label": c["label"], "n_remove": int(c["n_remove"]), "F": F})
                 else:
                     iso_jobs.append({"kind": "raw", "fn": "c_pcd", "n_remove": int(c["n_remove"]), "F": F})
                 iso_idx.append((i, name))
@@ -184,7 +206,7 @@ def run_batch(cases):
                 Fc = F.copy()
                 if wrapped:
                     from pymoode.survival.rank_and_crowding import metrics
-                    r = np.array(metrics.get_crowding_function(c["label"]).do(Fc, n_remove=c["n_remove"]), dtype=float)
+                    r = np.array(metrics.get_crowding_function(label_object(c["label"])).do(Fc, n_remove=c["n_remove"]), dtype=float)
                     if not bits_equal(Fc, F):
                         rec.frames.append("the caller's array was modified by the crowding function")
                 else:
@@ -262,7 +284,7 @@ def compare(rec, ans):
         if isinstance(impl, str):
             out.append("%s: implementation %s, model returns values" % (name, impl))
             continue
-        d = _vals_equal(rec.cfg["label"], impl, p[name][0], p["ties"], name)
+        d = _vals_equal(BASE.get(rec.cfg["label"], rec.cfg["label"]), impl, p[name][0], p["ties"], name)
         if d:
             out.append("%s crowding values differ from the model: %s" % (name, d))
     return out
@@ -346,7 +368,7 @@ def oracle_C13(rec):
     if rec.err is not None:
         return ["model: " + rec.err]
     F = rec.inp["F"]
-    label = rec.cfg["label"]
+    label = BASE.get(rec.cfg["label"], rec.cfg["label"])
     bad = list(rec.frames)
     N = len(F)
     M = F.shape[1] if F.ndim == 2 else 0
@@ -380,7 +402,7 @@ def oracle_C13(rec):
                     if not np.isinf(v[col == col.max()]).any():
                         bad.append("%s %s: no point holding the maximum of objective %d is infinite" % (label, name, m))
         # published definitions on fronts without coordinate ties
-        if name.endswith("raw") and label in ("mnn", "2nn", "pcd") and N > M and not coordinate_ties(F) \
+        if label in ("mnn", "2nn", "pcd") and N > M and N > 2 and not coordinate_ties(F) \
                 and len(np.unique(F, axis=0)) == N:
             ref, tie_free, _ = ref_greedy(F, label, rec.cfg["n_remove"])
             if tie_free:
@@ -402,7 +424,7 @@ def oracle_C13(rec):
 def oracle_C14(rec):
     if rec.err is not None:
         return ["model: " + rec.err]
-    label = rec.cfg["label"]
+    label = BASE.get(rec.cfg["label"], rec.cfg["label"])
     if label in ("cd", "ce"):
         return []
     bad = []
